@@ -232,7 +232,9 @@ def run(case, replay=None):
                 if warm == "rival-metric":
                     # another survival object with another crowding metric has just truncated the same candidates
                     other_metric = METRICS[(METRICS.index(case["metric"]) + 1 + (case["seed"] % 3)) % 5]
-                    if other_metric == "pcd" and F.shape[1] > 2:
+                    if other_metric == "pcd" and (F.shape[1] > 2 or case.get("inf_F")):
+                        # (compiled pcd: >= 3 objectives only in isolated workers; non-finite objectives are tied maxima /
+                        # unordered values on which it reads outside its arrays - known finding F2)
                         other_metric = "cd"
                     prob2, pop2 = make_pop(F, G, H)
                     s2 = rnc.RankAndCrowding(crowding_func=other_metric) if case["cls"] == "rnc" \
@@ -412,6 +414,8 @@ def oracle_C03(rec):
 
 
 def oracle_C04(rec):
+    if rec.cfg.get("crashed") or "F" not in rec.inp:
+        return ["survival did not return: " + str(rec.err)]
     if rec.cfg.get("inf_F") and np.isnan(rec.inp["F"]).any():
         return []       # dominance among NaN objectives is not defined: C03's clauses only
     if rec.err is not None:
